@@ -479,6 +479,7 @@ type Contract struct {
 	Family   string // non-empty: pattern contract
 	Decreases map[int]Expr
 	Establishes map[int][]*Clause // checked on loop entry only
+	Before   map[string][]*Clause // proof hints: asserted (then assumed) before a call to the named callee
 }
 
 type SpecFunc struct {
@@ -510,7 +511,7 @@ type Lemma struct {
 	Src     string
 }
 
-var clauseHead = regexp.MustCompile(`^(requires|ensures|scope|modifies|loop|tags|pure|trusted|noinline|decreases)\b`)
+var clauseHead = regexp.MustCompile(`^(requires|ensures|scope|modifies|loop|tags|pure|trusted|noinline|decreases|before)\b`)
 
 func stripSpecLine(line string) (string, bool) {
 	t := strings.TrimSpace(line)
@@ -588,7 +589,7 @@ func loadContractFile(path string, cs *ContractSet) error {
 			curLemma = nil
 			kind := it[:strings.Index(it, " ")]
 			name := strings.TrimSpace(it[len(kind):])
-			cur = &Contract{Pkg: pkg, File: path, Invs: map[int][]*Clause{}, LoopMods: map[int][]ModLoc{}, Decreases: map[int]Expr{}, Establishes: map[int][]*Clause{}}
+			cur = &Contract{Pkg: pkg, File: path, Invs: map[int][]*Clause{}, LoopMods: map[int][]ModLoc{}, Decreases: map[int]Expr{}, Establishes: map[int][]*Clause{}, Before: map[string][]*Clause{}}
 			if kind == "func" {
 				cur.Target = pkg + "." + name
 				if _, dup := cs.ByTarget[cur.Target]; dup {
@@ -653,6 +654,19 @@ func loadContractFile(path string, cs *ContractSet) error {
 				case "scope":
 					cur.Scopes = append(cur.Scopes, cl)
 				}
+			case "before":
+				// before <callee>[#n] assert [label:] <expr>
+				f := strings.Fields(rest)
+				if len(f) < 3 || f[1] != "assert" {
+					return fail(fmt.Errorf("expected: before <callee> assert <expr>"))
+				}
+				body := strings.TrimSpace(rest[strings.Index(rest, " assert ")+8:])
+				label, tags, b2 := parseLabelTags(body)
+				e, err := parseSpecExpr(b2)
+				if err != nil {
+					return fail(err)
+				}
+				cur.Before[f[0]] = append(cur.Before[f[0]], &Clause{Kind: "assert", Label: label, Tags: tags, Src: b2, E: e, Line: it})
 			case "modifies":
 				cur.HasMod = true
 				if rest == "nothing" {
